@@ -3,6 +3,7 @@ C02.1 — stream accounting, for every reachable state of the pool model:
 each slot's `streamsCnt` is exactly the number of calls placed on it whose completion has not run.
 -/
 import GcpVerif.Proofs.PoolLocal
+import GcpVerif.Proofs.PoolHold
 namespace GcpVerif.Pool
 
 def streamsVec (s : St) : List Int := s.refs.map (·.streamsCnt)
@@ -369,7 +370,7 @@ theorem finishPick_inv {s : St} (h : StreamsInv s) (r : Option Slot) (ev : List 
 theorem not_used_not_mem {s : St} {call : Nat} (h : callIdUsed s call = false) : call ∉ allIds s := by
   simp only [callIdUsed, Bool.or_eq_false_iff, List.any_eq_false, beq_iff_eq] at h
   simp only [allIds, List.mem_append, List.mem_map, not_or, not_exists, not_and]
-  exact ⟨fun c hc heq => h.1 c hc heq, fun w hw heq => h.2 w hw heq⟩
+  exact ⟨fun c hc heq => h.1.1 c hc heq, fun w hw heq => h.1.2 w hw heq⟩
 
 theorem pickRR_inv {s : St} (h : StreamsInv s) (call : Nat) (loc : Loc) (ctx : CtxKind) (dl : Option Int)
     (hid : call ∉ allIds s) : StreamsInv (pickRR s call loc ctx dl).1 := by
@@ -400,7 +401,9 @@ theorem opPick_inv {s : St} (h : StreamsInv s) (call pn : Nat) (m : String) (ctx
   · simp [hu]; exact h
   · have hu' : callIdUsed s call = false := by simpa using hu
     have hid := not_used_not_mem hu'
-    simp only [hu', Bool.false_eq_true, ↓reduceIte]
+    simp only [hu', Bool.false_or]
+    split
+    · exact h
     cases s.published[pn]? with
     | none => exact h
     | some pub =>
@@ -694,6 +697,12 @@ theorem stepCore_inv {s : St} (h : StreamsInv s) (op : Op) : StreamsInv (stepCor
   | pick call pn m ctx dl req => exact opPick_inv h call pn m ctx dl req
   | ctxdone call => exact opCtxDone_inv h call
   | done call err reply => exact opDone_inv h call err reply
+  | pickHold call pn m ctx dl req =>
+    exact opPickHold_cases _ s call pn m ctx dl req h (fun _ => inv_of_ext h (Ext.of_eq rfl rfl rfl))
+      (opPick_inv h call pn m ctx dl req)
+  | resume call =>
+    exact opResume_cases _ s call h (fun _ => inv_of_ext h (Ext.of_eq rfl rfl rfl))
+      (fun _ _ _ _ => inv_of_ext (inv_of_ext h (Ext.of_eq rfl rfl rfl)) (newSubConn_ext _))
 
 theorem step_inv {s : St} (h : StreamsInv s) (op : Op) : StreamsInv (step s op).1 := by
   unfold step
